@@ -1309,6 +1309,9 @@ def str_method(it, s, name, args, kwargs):
     if name == 'endswith':
         return ops.str_startswith(ctx, s, args[0], ends=True)
     if name == 'join':
+        if isinstance(args[0], list) and any(isinstance(e, Chunk) for e in args[0]):
+            ctx.assumed_models.add("str.join over a symbolic-length list: function of (separator, list)")
+            return mkstr([Opq(ufun('str_join', PyStr, JsonSort, PyStr)(str_term(s), list_term(args[0])))])
         return ops.str_join(ctx, s, it.iterate(args[0]))
     if name == 'ljust':
         return ops.str_ljust(ctx, s, *args)
